@@ -1,5 +1,305 @@
+/-
+  C01 — applying a move follows the rules exactly, or is refused.
+
+  `Impl.move` (model of `Position.move`, `_move_place`, `_move_slide`) refines the
+  declarative rules of `Spec/Rules.lean`: for every well-formed position (any size ≥ 1,
+  any board, reserves, ply) and EVERY move (x, y : Int, any type, slides : Option (List Int))
+  the move is accepted iff it is legal, the successor is exactly `Rules.result`, and the
+  only error is `illegal` (`Err.crash` is unreachable).
+
+  Helper lemmas (loop invariant of `slideLoop`, geometry of the path) are in
+  `Lemmas/MoveRefine.lean`.  Each theorem is followed by an `example` that instantiates
+  its hypotheses on a concrete non-trivial position.
+-/
 import TakVerif.Model.Move
 import TakVerif.Spec.Rules
+import TakVerif.Lemmas.Board
+import TakVerif.Lemmas.MoveRefine
+
 namespace Tak.C01
-theorem placeholder : True := trivial
+
+open Tak Tak.Pos Tak.Rules Tak.Impl Tak.MoveRefine
+
+/-! ### concrete positions used by the non-vacuity examples -/
+
+private def W (k : Kind) : Piece := ⟨.white, k⟩
+private def B (k : Kind) : Piece := ⟨.black, k⟩
+
+/-- 5x5, white to move (ply 10).
+    (1,1): white capstone on a black flat on a white flat;   (2,1): a black flat;
+    (3,1): a black wall;   (1,2): a white wall;   (0,3): a stack of six, white on top. -/
+def ex5 : Pos :=
+  { size := 5, wStones := 14, wCaps := 0, bStones := 15, bCaps := 1, ply := 10,
+    board :=
+      ((((List.replicate 25 ([] : Stack)).set 6 [W .cap, B .flat, W .flat]).set 7 [B .flat]).set 8
+        [B .standing]).set 11 [W .standing] |>.set 15
+        [W .flat, B .flat, W .flat, B .flat, W .flat, B .flat] }
+
+/-- capstone stack moves right, dropping two flats and then flattening the wall alone -/
+def mvFlatten : Move := ⟨1, 1, .right, some [2, 1]⟩
+/-- carry of exactly `size` = 5 pieces along the whole row -/
+def mvCarry5 : Move := ⟨0, 3, .right, some [2, 1, 1, 1]⟩
+/-- carry of 6 > size -/
+def mvCarry6 : Move := ⟨0, 3, .right, some [3, 1, 1, 1]⟩
+/-- the wall on (1,2) is met while two pieces are still carried -/
+def mvMidWall : Move := ⟨1, 1, .up, some [1, 1]⟩
+/-- off the board -/
+def mvOff : Move := ⟨5, 1, .placeFlat, none⟩
+
+example : ex5.WF := by decide
+
+/-! ### 1. the main theorem -/
+
+/-- `Impl.move` accepts exactly the legal moves, produces exactly the successor the rules
+    prescribe, and refuses everything else with the domain's own error. -/
+theorem C01_move_refines_rules (p : Pos) (m : Move) (hwf : p.WF) :
+    Impl.move p m = if Rules.Legal p m then .ok (Rules.result p m) else .error .illegal := by
+  unfold Impl.move
+  by_cases hb : p.inBounds m.x m.y = true
+  · simp only [hb, Bool.not_true, Bool.false_eq_true, ↓reduceIte]
+    by_cases hs : m.type.isSlide = true
+    · simp only [hs, ↓reduceIte]
+      have hiff : Legal p m ↔ ∃ ds, SlideOK p m ds := by
+        constructor
+        · rintro (⟨k, hk⟩ | h)
+          · have := hk.kind
+            rw [placeKind_none_of_slide hs] at this
+            cases this
+          · exact h
+        · exact Or.inr
+      have hr := moveSlide_refines hwf hb hs
+      by_cases hl : Legal p m
+      · rw [if_pos hl]; exact hr.1 (hiff.1 hl)
+      · rw [if_neg hl]; exact hr.2 (fun h => hl (hiff.2 h))
+    · have hs' : m.type.isSlide = false := by simpa using hs
+      simp only [hs', Bool.false_eq_true, ↓reduceIte]
+      have hiff : Legal p m ↔ ∃ k, PlaceOK p m k := by
+        constructor
+        · rintro (h | ⟨ds, hd⟩)
+          · exact h
+          · exact absurd hd.isSlide hs
+        · exact Or.inl
+      have hr := movePlace_refines hwf hb hs'
+      by_cases hl : Legal p m
+      · rw [if_pos hl]; exact hr.1 (hiff.1 hl)
+      · rw [if_neg hl]; exact hr.2 (fun h => hl (hiff.2 h))
+  · have hb' : p.inBounds m.x m.y = false := by simpa using hb
+    simp only [hb', Bool.not_false, ↓reduceIte]
+    have hl : ¬ Legal p m := by
+      rintro (⟨k, hk⟩ | ⟨ds, hd⟩)
+      · exact hb hk.onBoard
+      · exact hb hd.onBoard
+    rw [if_neg hl]
+
+/-- non-vacuity: the capstone flattening is legal and the theorem gives its successor;
+    the wall square ends up as the white capstone on a black FLAT -/
+example : Impl.move ex5 mvFlatten = .ok (Rules.result ex5 mvFlatten) := by
+  rw [C01_move_refines_rules ex5 mvFlatten (by decide), if_pos (by decide)]
+example : Rules.Legal ex5 mvFlatten := by decide
+example : (Rules.result ex5 mvFlatten).sq 3 1 = [W .cap, B .flat] := by decide
+example : (Rules.result ex5 mvFlatten).sq 2 1 = [B .flat, W .flat, B .flat] := by decide
+example : (Rules.result ex5 mvFlatten).sq 1 1 = [] := by decide
+example : (Rules.result ex5 mvFlatten).sq 1 2 = [W .standing] := by decide
+example : (Rules.result ex5 mvFlatten).ply = 11 := by decide
+
+/-- non-vacuity: a carry of exactly `size` pieces is legal, one more is refused -/
+example : Rules.Legal ex5 mvCarry5 := by decide
+example : (Rules.result ex5 mvCarry5).sq 0 3 = [B .flat] := by decide
+example : (Rules.result ex5 mvCarry5).sq 1 3 = [B .flat, W .flat] := by decide
+example : (Rules.result ex5 mvCarry5).sq 4 3 = [W .flat] := by decide
+example : Impl.move ex5 mvCarry6 = .error .illegal := by
+  rw [C01_move_refines_rules ex5 mvCarry6 (by decide), if_neg (by decide)]
+
+/-- non-vacuity: a wall in the middle of the path refuses the slide -/
+example : ¬ Rules.Legal ex5 mvMidWall := by decide
+example : Impl.move ex5 mvMidWall = .error .illegal := by
+  rw [C01_move_refines_rules ex5 mvMidWall (by decide), if_neg (by decide)]
+/-- … while the capstone alone may flatten that wall -/
+example : Rules.Legal ex5 ⟨1, 1, .up, some [1]⟩ := by decide
+
+/-- non-vacuity: an off-board square is refused (no wrap-around, no crash) -/
+example : ¬ Rules.Legal ex5 mvOff := by decide
+example : Impl.move ex5 mvOff = .error .illegal := by
+  rw [C01_move_refines_rules ex5 mvOff (by decide), if_neg (by decide)]
+example : Impl.move ex5 ⟨-1, 1, .right, some [1]⟩ = .error .illegal := by
+  rw [C01_move_refines_rules ex5 _ (by decide), if_neg (by decide)]
+/-- a slide with `slides = None`, an empty tuple, a zero and a negative drop are refused -/
+example : ¬ Rules.Legal ex5 ⟨1, 1, .right, none⟩ ∧ ¬ Rules.Legal ex5 ⟨1, 1, .right, some []⟩ ∧
+    ¬ Rules.Legal ex5 ⟨1, 1, .right, some [0, 1]⟩ ∧ ¬ Rules.Legal ex5 ⟨1, 1, .right, some [2, -1]⟩ := by
+  decide
+/-- a placement on an empty square is legal -/
+example : Rules.Legal ex5 ⟨4, 4, .placeStanding, none⟩ := by decide
+example : (Rules.result ex5 ⟨4, 4, .placeStanding, none⟩).sq 4 4 = [W .standing] ∧
+    (Rules.result ex5 ⟨4, 4, .placeStanding, none⟩).wStones = 13 := by decide
+
+/-! ### 2. corollaries -/
+
+/-- accepted iff legal -/
+theorem C01_accept_iff_legal (p : Pos) (m : Move) (hwf : p.WF) :
+    (∃ q, Impl.move p m = .ok q) ↔ Rules.Legal p m := by
+  rw [C01_move_refines_rules p m hwf]
+  by_cases hl : Legal p m
+  · rw [if_pos hl]; exact ⟨fun _ => hl, fun _ => ⟨_, rfl⟩⟩
+  · rw [if_neg hl]
+    exact ⟨fun ⟨q, h⟩ => (by cases h), fun h => absurd h hl⟩
+
+/-- the form most convenient for the properties built on top (C03, C04, C08, C15) -/
+theorem C01_move_ok_iff (p : Pos) (m : Move) (q : Pos) (hwf : p.WF) :
+    Impl.move p m = .ok q ↔ Rules.Legal p m ∧ q = Rules.result p m := by
+  rw [C01_move_refines_rules p m hwf]
+  by_cases hl : Legal p m
+  · rw [if_pos hl]
+    exact ⟨fun h => ⟨hl, by injection h with h; exact h.symm⟩, fun h => by rw [h.2]⟩
+  · rw [if_neg hl]
+    exact ⟨fun h => (by cases h), fun h => absurd h.1 hl⟩
+
+/-- the same, through `Except.isOk` -/
+theorem C01_isOk_iff_legal (p : Pos) (m : Move) (hwf : p.WF) :
+    (Impl.move p m).isOk = true ↔ Rules.Legal p m := by
+  rw [C01_move_refines_rules p m hwf]
+  by_cases hl : Legal p m
+  · rw [if_pos hl]; exact ⟨fun _ => hl, fun _ => rfl⟩
+  · rw [if_neg hl]
+    exact ⟨fun h => (by cases h), fun h => absurd h hl⟩
+
+example : ∃ q, Impl.move ex5 mvCarry5 = .ok q :=
+  (C01_accept_iff_legal ex5 mvCarry5 (by decide)).2 (by decide)
+
+/-- no exception other than the domain's own escapes -/
+theorem C01_no_crash (p : Pos) (m : Move) (hwf : p.WF) :
+    ∀ c, Impl.move p m ≠ .error (.crash c) := by
+  intro c
+  rw [C01_move_refines_rules p m hwf]
+  by_cases hl : Legal p m
+  · rw [if_pos hl]; intro h; cases h
+  · rw [if_neg hl]; intro h; cases h
+
+example : ∀ c, Impl.move ex5 ⟨7, -3, .left, some [0]⟩ ≠ .error (.crash c) :=
+  C01_no_crash ex5 _ (by decide)
+
+/-- an accepted move advances the ply by one and keeps the size (holds for every position,
+    well-formed or not) -/
+theorem C01_ply_succ {p : Pos} {m : Move} {q : Pos} (h : Impl.move p m = .ok q) :
+    q.ply = p.ply + 1 ∧ q.size = p.size :=
+  move_ok h
+
+example : (Rules.result ex5 mvFlatten).ply = ex5.ply + 1 ∧ (Rules.result ex5 mvFlatten).size = ex5.size :=
+  C01_ply_succ (by rw [C01_move_refines_rules ex5 mvFlatten (by decide), if_pos (by decide)])
+
+/-- a legal move leaves a well-formed position well-formed -/
+theorem C01_result_WF {p : Pos} {m : Move} {q : Pos} (hwf : p.WF) (h : Impl.move p m = .ok q) :
+    q.WF := by
+  have hs := (C01_ply_succ h).2
+  rw [C01_move_refines_rules p m hwf] at h
+  by_cases hl : Legal p m
+  · rw [if_pos hl] at h
+    injection h with h
+    refine ⟨by rw [hs]; exact hwf.1, ?_⟩
+    rw [hs, ← h]
+    unfold result
+    split <;> simp
+  · rw [if_neg hl] at h; cases h
+
+/-! ### 3. stack order is preserved along the slide -/
+
+/-- The squares of the successor of a legal slide, in the rule book's terms: the origin keeps
+    what was not picked up, path square `i` receives `segment i` on top of its old (possibly
+    flattened) content, every other square is untouched. -/
+theorem C01_result_origin {p : Pos} {m : Move} {ds : List Nat} (h : SlideOK p m ds) :
+    (Rules.result p m).atI m.x m.y = (p.atI m.x m.y).drop ds.sum := by
+  obtain ⟨_, _, ex, ey⟩ := inBounds_nat p h.onBoard
+  rw [result_slide_atI h h.onBoard]
+  exact slideSquare_origin p m ds (by rw [ex, ey])
+
+theorem C01_result_path {p : Pos} {m : Move} {ds : List Nat} (h : SlideOK p m ds)
+    {i : Nat} (hi : i < ds.length) :
+    (Rules.result p m).atI (pathSq m i).1 (pathSq m i).2 =
+      segment p m ds i ++ flattened (pathStack p m i) := by
+  have hb := h.pathIn i hi
+  obtain ⟨_, _, ex, ey⟩ := inBounds_nat p hb
+  rw [result_slide_atI h hb]
+  exact slideSquare_path p m ds h.isSlide hi (by rw [ex, ey])
+
+theorem C01_result_other {p : Pos} {m : Move} {ds : List Nat} (h : SlideOK p m ds)
+    {x y : Int} (hb : p.inBounds x y = true) (h0 : (x, y) ≠ (m.x, m.y))
+    (hp : ∀ i, i < ds.length → pathSq m i ≠ (x, y)) :
+    (Rules.result p m).atI x y = p.atI x y := by
+  obtain ⟨_, _, ex, ey⟩ := inBounds_nat p hb
+  rw [result_slide_atI h hb]
+  exact slideSquare_other p m ds (by rw [ex, ey]; exact h0) (by rw [ex, ey]; exact hp)
+
+/-- Reading the pieces newly put on the path squares from the farthest square back to the
+    first gives exactly the pieces picked up, in their original order (top first). -/
+theorem C01_stack_order (p : Pos) (m : Move) (ds : List Nat) :
+    (List.range ds.length).reverse.flatMap (segment p m ds) = carried p m ds :=
+  flatMap_segment p m ds
+
+/-- … and followed by what the origin keeps, the original stack. -/
+theorem C01_stack_order_origin (p : Pos) (m : Move) (ds : List Nat) :
+    (List.range ds.length).reverse.flatMap (segment p m ds) ++ (p.atI m.x m.y).drop ds.sum =
+      p.atI m.x m.y := by
+  rw [C01_stack_order]
+  exact List.take_append_drop _ _
+
+/-- The same statement about the successor position of a legal slide: the new pieces on the
+    path squares (what lies above the old, possibly flattened, content), read from the
+    farthest square back to the origin, then the origin's remainder, are the original stack. -/
+theorem C01_stack_order_result {p : Pos} {m : Move} {ds : List Nat} (h : SlideOK p m ds) :
+    (List.range ds.length).reverse.flatMap
+        (fun i => ((Rules.result p m).atI (pathSq m i).1 (pathSq m i).2).take (ds.getD i 0)) ++
+      (Rules.result p m).atI m.x m.y = p.atI m.x m.y := by
+  have e : (List.range ds.length).reverse.flatMap
+        (fun i => ((Rules.result p m).atI (pathSq m i).1 (pathSq m i).2).take (ds.getD i 0)) =
+      (List.range ds.length).reverse.flatMap (segment p m ds) := by
+    apply flatMap_congr_mem
+    intro i hi
+    have hi' : i < ds.length := by simpa using hi
+    have hl := segment_length p m ds hi' h.height
+    rw [C01_result_path h hi']
+    have : ds.getD i 0 = ds[i] := by simp [List.getD_eq_getElem?_getD, hi']
+    rw [this, ← hl, List.take_left]
+  rw [e, C01_result_origin h]
+  exact C01_stack_order_origin p m ds
+
+/-- each path square receives exactly its drop count -/
+theorem C01_segment_length (p : Pos) (m : Move) (ds : List Nat) {i : Nat} (hi : i < ds.length)
+    (hh : ds.sum ≤ (p.atI m.x m.y).length) : (segment p m ds i).length = ds[i] :=
+  segment_length p m ds hi hh
+
+/-- non-vacuity: the flattening slide of `ex5` is a `SlideOK` with drops `[2, 1]` -/
+private theorem ex5_flatten_ok : SlideOK ex5 mvFlatten [2, 1] := (slideOKb_iff _ _ _).1 (by decide)
+
+example : (List.range 2).reverse.flatMap (segment ex5 mvFlatten [2, 1]) =
+    [W .cap, B .flat, W .flat] := by decide
+example : segment ex5 mvFlatten [2, 1] 0 = [B .flat, W .flat] ∧
+    segment ex5 mvFlatten [2, 1] 1 = [W .cap] := by decide
+example : (Rules.result ex5 mvFlatten).atI 3 1 = [W .cap] ++ flattened [B .standing] :=
+  C01_result_path ex5_flatten_ok (i := 1) (by decide)
+example : (segment ex5 mvCarry5 [2, 1, 1, 1] 0).length = 2 :=
+  C01_segment_length ex5 mvCarry5 [2, 1, 1, 1] (i := 0) (by decide) (by decide)
+
+/-! ### 4. a wall is only ever flattened by the final single-piece drop -/
+
+theorem C01_wall_only_last {p : Pos} {m : Move} {ds : List Nat} (h : SlideOK p m ds)
+    {i : Nat} (hi : i < ds.length) (hw : topKind (pathStack p m i) = some .standing) :
+    i + 1 = ds.length ∧ ds[i] = 1 := by
+  have h1 := (h.wall i hi hw).1
+  have hpos := (slideDrops_pos h.drops).2
+  have h2 := sum_take_succ ds hi
+  have h3 := sum_take_add_drop ds (i + 1)
+  have h4 := hpos ds[i] (by simp)
+  have h5 := length_le_sum_of_pos (ds.drop (i + 1)) (fun d hd => hpos d (List.mem_of_mem_drop hd))
+  rw [List.length_drop] at h5
+  omega
+
+/-- … and then the moving piece is the capstone, alone -/
+theorem C01_wall_needs_cap {p : Pos} {m : Move} {ds : List Nat} (h : SlideOK p m ds)
+    {i : Nat} (hi : i < ds.length) (hw : topKind (pathStack p m i) = some .standing) :
+    topKind (p.atI m.x m.y) = some .cap ∧ (segment p m ds i).length = 1 := by
+  have hl := C01_wall_only_last h hi hw
+  exact ⟨(h.wall i hi hw).2, by rw [C01_segment_length p m ds hi h.height, hl.2]⟩
+
+example : (1 : Nat) + 1 = [2, 1].length ∧ [2, 1][1] = 1 :=
+  C01_wall_only_last ex5_flatten_ok (i := 1) (by decide) (by decide)
+
 end Tak.C01
